@@ -498,6 +498,56 @@ func namesOpaque(c *Ctx, m *namesMsg) {
 	c.Stat("opaque_checked")
 }
 
+// namesHybridModel: the same message under default_api_level=API_HYBRID; observes what
+// protogen_opaque.go computed (Field.camelCase via BuilderFieldName, hasConflictHybrid via
+// the "_" infix of MethodName) for comparison with CodeGen/OpaqueModel.v.
+//   opaque <oneof names|-> <field:number:oneofIndex|-:presence>... | <camelCase> <conflict flags> <oneof camelCase> <oneof conflict flags>
+func namesHybridModel(c *Ctx, m *namesMsg) {
+	gen, err := protogen.Options{}.New(namesBuildRequest(m, "default_api_level=API_HYBRID"))
+	if err != nil {
+		return
+	}
+	pm := gen.Files[0].Messages[0]
+	ins := []string{namesJoin(m.oneofs)}
+	var cams, ocams []string
+	flags, oflags := "", ""
+	for i, f := range pm.Fields {
+		k := "-"
+		if m.oneofOf[i] >= 0 {
+			k = fmt.Sprint(m.oneofOf[i])
+		}
+		ins = append(ins, fmt.Sprintf("%s:%d:%s:%s", m.fields[i], f.Desc.Number(), k, Tok(f.Desc.HasPresence())))
+		bn := f.BuilderFieldName()
+		cams = append(cams, bn)
+		set, _ := f.MethodName("Set")
+		switch set {
+		case "Set" + bn:
+			flags += "0"
+		case "Set_" + bn:
+			flags += "1"
+		default:
+			flags += "?"
+		}
+	}
+	for _, o := range pm.Oneofs {
+		h := strings.TrimPrefix(o.MethodName("Has"), "Has")
+		if strings.HasPrefix(h, "_") {
+			oflags += "1"
+			h = h[1:]
+		} else {
+			oflags += "0"
+		}
+		ocams = append(ocams, h)
+	}
+	if oflags == "" {
+		oflags = "-"
+	}
+	c.Case("names", "opaque", ins, []string{namesJoin(cams), flags, namesJoin(ocams), oflags})
+	if strings.Contains(flags, "1") || strings.Contains(oflags, "1") {
+		c.Stat("hybrid_conflict_infix")
+	}
+}
+
 func namesMk(fields []string, oneofOf []int, oneofs []string) *namesMsg {
 	return &namesMsg{fields: fields, oneofOf: oneofOf, oneofs: oneofs, synth: make([]bool, len(oneofs))}
 }
@@ -533,6 +583,7 @@ func namesUniqueCorpus(c *Ctx) {
 			c.PropFail("C42", "corpus message rejected by protogen", m.String())
 		}
 		namesOpaque(c, m)
+		namesHybridModel(c, m)
 	}
 }
 
@@ -541,6 +592,7 @@ func namesUniqueRandom(c *Ctx, n int) {
 		m := namesRandMsg(c)
 		if namesRunMessage(c, m) {
 			namesOpaque(c, m)
+			namesHybridModel(c, m)
 		}
 	}
 }
